@@ -84,6 +84,7 @@ Proof.
   destruct a, b; cbn; try discriminate; intros H.
   - apply andb_prop in H. destruct H as [H1 H2]. apply N.eqb_eq in H1. apply idx_eqb_eq in H2. congruence.
   - apply andb_prop in H. destruct H as [H1 H2]. apply N.eqb_eq in H1. apply idx_eqb_eq in H2. congruence.
+  - apply andb_prop in H. destruct H as [H1 H2]. apply N.eqb_eq in H1. apply idx_eqb_eq in H2. congruence.
   - apply N.eqb_eq in H. congruence.
 Qed.
 
@@ -109,7 +110,9 @@ Record agree (A : list akey) (sw sr : state) : Prop := mkAgree {
   ag_int : forall f idx, In (AInt f idx) A -> idx_agreed A idx = true ->
                          get_int sw (key sw f idx) = get_int sr (key sr f idx);
   ag_size : forall f idx, In (ASize f idx) A -> idx_agreed A idx = true ->
-                          get_size sw (key sw f idx) = get_size sr (key sr f idx)
+                          get_size sw (key sw f idx) = get_size sr (key sr f idx);
+  ag_blob : forall f idx, In (ABlob f idx) A -> idx_agreed A idx = true ->
+                          get_blob sw (key sw f idx) = get_blob sr (key sr f idx)
 }.
 
 Lemma idx_agreed_eval A sw sr idx :
@@ -135,10 +138,11 @@ Qed.
    indices are agreed in B has them agreed in A as well (A is larger) *)
 Lemma agree_subset A B sw sr : (forall a, In a B -> In a A) -> agree A sw sr -> agree B sw sr.
 Proof.
-  intros Hs [Hl Hi Hz]. constructor.
+  intros Hs [Hl Hi Hz Hb]. constructor.
   - intros x Hx. apply Hl. auto.
   - intros f idx Hf Hidx. apply Hi; [auto|]. eapply idx_agreed_mono; eauto.
   - intros f idx Hf Hidx. apply Hz; [auto|]. eapply idx_agreed_mono; eauto.
+  - intros f idx Hf Hidx. apply Hb; [auto|]. eapply idx_agreed_mono; eauto.
 Qed.
 
 Lemma asubset_in A B : asubset A B = true -> forall a, In a A -> In a B.
@@ -306,17 +310,22 @@ Section Rt.
       { unfold idx_agreed in *. rewrite forallb_forall in *. intros j Hj. specialize (Hi j Hj). destruct j; [reflexivity|].
         apply amem_in in Hi. apply aadd_in in Hi. destruct Hi as [Hi|Hi]; [discriminate|]. apply in_amem. exact Hi. }
       exact (ag_size A sw sr Hag g i Hg Hi').
+    - intros g i Hg Hi. apply aadd_in in Hg. destruct Hg as [Hg|Hg]; [discriminate|].
+      assert (Hi' : idx_agreed A i = true).
+      { unfold idx_agreed in *. rewrite forallb_forall in *. intros j Hj. specialize (Hi j Hj). destruct j; [reflexivity|].
+        apply amem_in in Hi. apply aadd_in in Hi. destruct Hi as [Hi|Hi]; [discriminate|]. apply in_amem. exact Hi. }
+      exact (ag_blob A sw sr Hag g i Hg Hi').
   Qed.
 
-  (* agreement only looks at scalars, sizes and locals *)
-  Definition store_eq (a b : state) : Prop := ints a = ints b /\ sizes a = sizes b /\ locals a = locals b.
+  (* agreement only looks at scalars, sizes, raw arrays and locals *)
+  Definition store_eq (a b : state) : Prop := ints a = ints b /\ sizes a = sizes b /\ locals a = locals b /\ blobs a = blobs b.
 
   Lemma store_eq_refl a : store_eq a a.
   Proof. repeat split. Qed.
 
   Lemma agree_store_eq A sw sw' sr sr' : store_eq sw sw' -> store_eq sr sr' -> agree A sw sr -> agree A sw' sr'.
   Proof.
-    intros (Hi1 & Hs1 & Hl1) (Hi2 & Hs2 & Hl2) [Hl Hi Hz].
+    intros (Hi1 & Hs1 & Hl1 & Hb1) (Hi2 & Hs2 & Hl2 & Hb2) [Hl Hi Hz Hb].
     assert (Hk1 : forall f idx, key sw' f idx = key sw f idx).
     { intros. unfold key, eval_idx. f_equal. apply map_ext. intros [n|x]; cbn [eval_i]; [reflexivity|]. unfold get_local. rewrite Hl1. reflexivity. }
     assert (Hk2 : forall f idx, key sr' f idx = key sr f idx).
@@ -325,6 +334,7 @@ Section Rt.
     - intros x Hx. unfold get_local. rewrite <- Hl1, <- Hl2. apply Hl. exact Hx.
     - intros f idx Hf Hidx. rewrite Hk1, Hk2. unfold get_int. rewrite <- Hi1, <- Hi2. apply Hi; auto.
     - intros f idx Hf Hidx. rewrite Hk1, Hk2. unfold get_size. rewrite <- Hs1, <- Hs2. apply Hz; auto.
+    - intros f idx Hf Hidx. rewrite Hk1, Hk2. unfold get_blob. rewrite <- Hb1, <- Hb2. apply Hb; auto.
   Qed.
 
   Lemma warn_back s st st' : exec Wr v hs s st = Ok st' -> warn st' = false -> warn st = false.
@@ -419,7 +429,7 @@ Section Rt.
     split; [|split].
     - cbn [inp set_int]. exact I1.
     - unfold wfio in *. cbn [remaining inp eof set_int]. exact W1.
-    - unfold store_eq, set_int. cbn [ints sizes locals]. rewrite E1, E3, E4. repeat split.
+    - unfold store_eq, set_int. cbn [ints sizes locals blobs]. rewrite E1, E2, E3, E4. repeat split.
   Qed.
 
   (* the reference log is invisible to everything the round trip looks at *)
@@ -445,9 +455,9 @@ Section Rt.
   Proof. destruct b; cbn [maybe_log]; (split; [repeat split|split; [reflexivity|split; [reflexivity|]]]); intros [H1 H2]; split; assumption. Qed.
 
   Lemma store_eq_trans a b c : store_eq a b -> store_eq b c -> store_eq a c.
-  Proof. intros (A1 & A2 & A3) (B1 & B2 & B3). repeat split; congruence. Qed.
+  Proof. intros (A1 & A2 & A3 & A4) (B1 & B2 & B3 & B4). repeat split; congruence. Qed.
   Lemma store_eq_sym a b : store_eq a b -> store_eq b a.
-  Proof. intros (A1 & A2 & A3). repeat split; congruence. Qed.
+  Proof. intros (A1 & A2 & A3 & A4). repeat split; congruence. Qed.
 
   (* the common shape of SSync / SHalf / SRef / SStrRef (index form): a scalar of the full width of its
      type, possibly logged as a reference *)
@@ -512,6 +522,65 @@ Section Rt.
       apply aadd_in in Hg. destruct Hg as [Hg|Hg].
       + inversion Hg; subst g i. rewrite skey_eqb_refl in E. discriminate.
       + pose proof (ag_size A sw sr Hag g i Hg Hi') as Hold. rewrite Hgi in Hold. exact Hold.
+    - intros g i Hg Hi. apply aadd_in in Hg. destruct Hg as [Hg|Hg]; [discriminate|].
+      exact (ag_blob A sw sr Hag g i Hg (idx_agreed_aadd_size _ _ _ _ Hi)).
+  Qed.
+
+  Lemma idx_agreed_aadd_blob A f idx i : idx_agreed (aadd (ABlob f idx) A) i = true -> idx_agreed A i = true.
+  Proof.
+    unfold idx_agreed. rewrite !forallb_forall. intros H j Hj. specialize (H j Hj). destruct j; [reflexivity|].
+    apply amem_in in H. apply aadd_in in H. destruct H as [H|H]; [discriminate|]. apply in_amem. exact H.
+  Qed.
+
+  Lemma get_set_blob' st k b k' : get_blob (set_blob st k b) k' = if skey_eqb k' k then b else get_blob st k'.
+  Proof. unfold get_blob, set_blob. cbn [blobs]. rewrite find2_add2. destruct (skey_eqb k' k); reflexivity. Qed.
+
+  Lemma agree_set_blob_both A sw sr f idx b :
+    agree A sw sr -> idx_agreed A idx = true ->
+    agree (aadd (ABlob f idx) A) (set_blob sw (key sw f idx) b) (set_blob sr (key sr f idx) b).
+  Proof.
+    intros Hag Hidx.
+    assert (Hk : key sw f idx = key sr f idx) by (eapply key_agreed; eauto).
+    constructor.
+    - intros x Hx. apply aadd_in in Hx. destruct Hx as [Hx|Hx]; [discriminate|].
+      exact (ag_local A sw sr Hag x Hx).
+    - intros g i Hg Hi. apply aadd_in in Hg. destruct Hg as [Hg|Hg]; [discriminate|].
+      exact (ag_int A sw sr Hag g i Hg (idx_agreed_aadd_blob _ _ _ _ Hi)).
+    - intros g i Hg Hi. apply aadd_in in Hg. destruct Hg as [Hg|Hg]; [discriminate|].
+      exact (ag_size A sw sr Hag g i Hg (idx_agreed_aadd_blob _ _ _ _ Hi)).
+    - intros g i Hg Hi.
+      pose proof (idx_agreed_aadd_blob _ _ _ _ Hi) as Hi'.
+      assert (Hgi : key sw g i = key sr g i) by (eapply key_agreed; eauto).
+      rewrite !get_set_blob'.
+      change (key (set_blob sw (key sw f idx) b) g i) with (key sw g i).
+      change (key (set_blob sr (key sr f idx) b) g i) with (key sr g i).
+      rewrite Hgi, Hk.
+      destruct (skey_eqb (key sr g i) (key sr f idx)) eqn:E; [reflexivity|].
+      apply aadd_in in Hg. destruct Hg as [Hg|Hg].
+      + inversion Hg; subst g i. rewrite skey_eqb_refl in E. discriminate.
+      + pose proof (ag_blob A sw sr Hag g i Hg Hi') as Hold. rewrite Hgi in Hold. exact Hold.
+  Qed.
+
+  (* two different byte strings stored under one field name: every token of that name is forgotten *)
+  Lemma agree_kill_blob A sw sr f l1 l2 b1 b2 :
+    agree A sw sr -> agree (akill_blob f A) (set_blob sw (enc_key f l1) b1) (set_blob sr (enc_key f l2) b2).
+  Proof.
+    intros Hag.
+    assert (Hin : forall a, In a (akill_blob f A) -> In a A) by (intros a Ha; unfold akill_blob in Ha; apply filter_In in Ha; apply Ha).
+    assert (Hidx : forall i, idx_agreed (akill_blob f A) i = true -> idx_agreed A i = true).
+    { intros i. apply idx_agreed_mono. exact Hin. }
+    constructor.
+    - intros x Hx. exact (ag_local A sw sr Hag x (Hin _ Hx)).
+    - intros g i Hg Hi. exact (ag_int A sw sr Hag g i (Hin _ Hg) (Hidx _ Hi)).
+    - intros g i Hg Hi. exact (ag_size A sw sr Hag g i (Hin _ Hg) (Hidx _ Hi)).
+    - intros g i Hg Hi.
+      assert (Hne : g <> f).
+      { unfold akill_blob in Hg. apply filter_In in Hg. destruct Hg as [_ Hg]. apply negb_true_iff in Hg. apply N.eqb_neq in Hg. congruence. }
+      rewrite !get_set_blob'.
+      change (key (set_blob sw (enc_key f l1) b1) g i) with (key sw g i).
+      change (key (set_blob sr (enc_key f l2) b2) g i) with (key sr g i).
+      unfold key. rewrite !skey_eqb_names by exact Hne.
+      exact (ag_blob A sw sr Hag g i (Hin _ Hg) (Hidx _ Hi)).
   Qed.
 
   Lemma eval_idx_set_local_other st x z idx : idx_mentions x idx = false -> eval_idx (set_local st x z) idx = eval_idx st idx.
@@ -525,7 +594,7 @@ Section Rt.
 
   (* B mentions x nowhere *)
   Definition xfree (x : lvar) (B : list akey) : Prop :=
-    forall a, In a B -> match a with AInt _ i | ASize _ i => idx_mentions x i = false | ALocal y => y <> x end.
+    forall a, In a B -> match a with AInt _ i | ASize _ i | ABlob _ i => idx_mentions x i = false | ALocal y => y <> x end.
 
   Lemma akill_xfree x A : xfree x (akill x A).
   Proof.
@@ -562,6 +631,11 @@ Section Rt.
       unfold key. rewrite !eval_idx_set_local_other by exact Hm.
       change (get_size (set_local sw x z)) with (get_size sw). change (get_size (set_local sr x z)) with (get_size sr).
       exact (ag_size B sw sr Hag g i Hg (idx_agreed_drop_local x B i Hm Hi)).
+    - intros g i Hg Hi. apply aadd_in in Hg. destruct Hg as [Hg|Hg]; [discriminate|].
+      pose proof (Hfree _ Hg) as Hm. cbn in Hm.
+      unfold key. rewrite !eval_idx_set_local_other by exact Hm.
+      change (get_blob (set_local sw x z)) with (get_blob sw). change (get_blob (set_local sr x z)) with (get_blob sr).
+      exact (ag_blob B sw sr Hag g i Hg (idx_agreed_drop_local x B i Hm Hi)).
   Qed.
 
   Lemma rt_local A x p e : reads_ok A e = true -> rt_ok0 (SLocal x p e) A (aadd (ALocal x) (akill x A)).
@@ -602,7 +676,7 @@ Section Rt.
   Qed.
 
   (* ---- raw memory of an agreed size ---- *)
-  Lemma rt_bytes A f idx n : idx_agreed A idx = true -> reads_ok A n = true -> rt_ok0 (SBytes f idx n) A A.
+  Lemma rt_bytes A f idx n : idx_agreed A idx = true -> reads_ok A n = true -> rt_ok0 (SBytes f idx n) A (aadd (ABlob f idx) A).
   Proof.
     intros Hidx He sw sw' H. cbn [exec] in H. cbv zeta in H.
     destruct (eval Wr v hs sw n) as [z| |] eqn:Ez; cbn [bind] in H; try discriminate.
@@ -618,15 +692,20 @@ Section Rt.
       unfold sync_blob.
       destruct (read_exact sr b rest Hw Hi) as (s1 & Hr & I1 & W1 & E1 & E2 & E3 & E4 & E5).
       replace (read sr (Z.to_N z)) with (read sr (N.of_nat (length b))) by (f_equal; lia).
-      rewrite Hr.
+      rewrite Hr. fold nn. rewrite overlay_full by exact Hb.
       eexists. split; [reflexivity|]. split; [exact I1|]. split; [exact W1|].
-      eapply agree_store_eq; [| |exact Hag].
+      assert (Hag1 : agree A sw s1).
+      { eapply agree_store_eq; [apply store_eq_refl| |exact Hag]. unfold store_eq. rewrite E1, E2, E3, E4. repeat split. }
+      assert (Hks : key_of sr f idx = key s1 f idx).
+      { unfold key_of, key, eval_idx. f_equal. apply map_ext. intros [c|x]; cbn [eval_i]; [reflexivity|]. unfold get_local. rewrite E4. reflexivity. }
+      rewrite Hks, key_of_key.
+      eapply agree_store_eq; [| |apply (agree_set_blob_both A sw s1 f idx b Hag1 Hidx)].
       + repeat split.
-      + unfold store_eq, set_blob. cbn [ints sizes locals]. rewrite E1, E3, E4. repeat split.
+      + apply store_eq_refl.
   Qed.
 
   (* ---- a raw array whose length is the (agreed) element count of its container ---- *)
-  Lemma rt_bytesvec A f idx : idx_agreed A idx = true -> amem (ASize f idx) A = true -> rt_ok0 (SBytesVec f idx) A A.
+  Lemma rt_bytesvec A f idx : idx_agreed A idx = true -> amem (ASize f idx) A = true -> rt_ok0 (SBytesVec f idx) A (akill_blob f A).
   Proof.
     intros Hidx Hsz sw sw' H. cbn [exec] in H. cbv zeta in H. rewrite key_of_key in H.
     assert (Hn : forall sr, agree A sw sr -> get_size sr (key sr f idx) = get_size sw (key sw f idx)).
@@ -634,7 +713,8 @@ Section Rt.
     destruct (get_size sw (key sw f idx) =? 0) eqn:E0.
     - assert (sw' = sw) by congruence. subst sw'. exists []. split; [apply wrote_refl|].
       intros sr rest Hag Hw Hi. cbn [exec]. cbv zeta. rewrite key_of_key, (Hn sr Hag), E0.
-      exists sr. split; [reflexivity|]. split; [exact Hi|]. split; [exact Hw|exact Hag].
+      exists sr. split; [reflexivity|]. split; [exact Hi|]. split; [exact Hw|].
+      eapply agree_subset; [|exact Hag]. intros a Ha. unfold akill_blob in Ha. apply filter_In in Ha. apply Ha.
     - unfold sync_blob in H.
       set (nn := N.to_nat (get_size sw (key sw f idx))) in *.
       set (b := firstn nn (get_blob sw (key sw f idx) ++ repeat 0 nn)) in *.
@@ -649,9 +729,13 @@ Section Rt.
         replace (read sr (get_size sw (key sw f idx))) with (read sr (N.of_nat (length b))) by (f_equal; lia).
         rewrite Hr.
         eexists. split; [reflexivity|]. split; [exact I1|]. split; [exact W1|].
-        eapply agree_store_eq; [| |exact Hag].
+        assert (Hag1 : agree A sw s1).
+        { eapply agree_store_eq; [apply store_eq_refl| |exact Hag]. unfold store_eq. rewrite E1, E2, E3, E4. repeat split. }
+        pose proof (agree_kill_blob A sw s1 f (eval_idx sw idx) (eval_idx sr idx) b
+                      (overlay nn b (get_blob sr (enc_key f (eval_idx sr idx)))) Hag1) as Hk.
+        eapply agree_store_eq; [| |exact Hk].
         * repeat split.
-        * unfold store_eq, set_blob. cbn [ints sizes locals]. rewrite E1, E3, E4. repeat split.
+        * apply store_eq_refl.
   Qed.
 
   (* ---- a local variable passed through the stream ---- *)
@@ -674,7 +758,7 @@ Section Rt.
       apply agree_set_local_both; [|apply akill_xfree].
       eapply agree_store_eq; [| |eapply agree_subset; [apply akill_in|exact Hag]].
       + repeat split.
-      + unfold store_eq. rewrite E1, E3, E4. repeat split.
+      + unfold store_eq. rewrite E1, E2, E3, E4. repeat split.
   Qed.
 
   (* ---- loops ---- *)
@@ -787,7 +871,7 @@ Section Rt.
   Proof. intros H. rewrite wrapZ_unsigned. apply Z.mod_le; [exact H|]. apply Z.pow_pos_nonneg; lia. Qed.
 
   (* ---- NiString: length prefix, then the bytes ---- *)
-  Lemma rt_nistring A f idx w : 0 < w -> rt_ok0 (SNiString f idx w) A A.
+  Lemma rt_nistring A f idx w : 0 < w -> rt_ok0 (SNiString f idx w) A (akill_blob f A).
   Proof.
     intros Hw sw sw' H. cbn [exec] in H. cbv zeta in H.
     set (k := key_of sw f idx) in *.
@@ -820,14 +904,18 @@ Section Rt.
       replace (read u sz) with (read u (N.of_nat (length s1))) by (f_equal; lia).
       rewrite Hr2.
       eexists. split; [reflexivity|]. split; [exact I2|]. split; [exact W2|].
-      eapply agree_store_eq; [| |exact Hag].
+      assert (Hag2 : agree A sw u2).
+      { eapply agree_store_eq; [apply store_eq_refl| |exact Hag]. unfold store_eq. rewrite F1, F2, F3, F4, E1, E2, E3, E4. repeat split. }
+      pose proof (agree_kill_blob A sw u2 f (eval_idx sw idx) (eval_idx sr idx) s1
+                    (take_until_nul (overlay (N.to_nat sz) s1 [])) Hag2) as Hk.
+      eapply agree_store_eq; [| |exact Hk].
       + repeat split.
-      + unfold store_eq, set_blob. cbn [ints sizes locals]. rewrite F1, F3, F4, E1, E3, E4. repeat split.
+      + apply store_eq_refl.
   Qed.
 
   (* ---- NiStringRef before 20.1.0.3: an inline string (u32 length, bytes); the reader takes at most 2048 bytes ---- *)
   Lemma rt_strref_old A fstr findex idx :
-    Z.ltb (vfile v) V20_1_0_3 = true -> rt_ok (SStrRef fstr findex idx) A A.
+    Z.ltb (vfile v) V20_1_0_3 = true -> rt_ok (SStrRef fstr findex idx) A (akill_blob fstr A).
   Proof.
     intros Hv sw sw' H Hnw. cbn [exec] in H. rewrite Hv in H. cbv zeta in H.
     set (k := key_of sw fstr idx) in *.
@@ -858,9 +946,13 @@ Section Rt.
       replace (read u sz) with (read u (N.of_nat (length s1))) by (f_equal; lia).
       rewrite Hr2.
       eexists. split; [reflexivity|]. split; [exact I2|]. split; [exact W2|].
-      eapply agree_store_eq; [| |exact Hag].
+      assert (Hag2 : agree A sw u2).
+      { eapply agree_store_eq; [apply store_eq_refl| |exact Hag]. unfold store_eq. rewrite F1, F2, F3, F4, E1, E2, E3, E4. repeat split. }
+      pose proof (agree_kill_blob A sw u2 fstr (eval_idx sw idx) (eval_idx sr idx) s1
+                    (take_until_nul (overlay (N.to_nat sz) s1 [])) Hag2) as Hk.
+      eapply agree_store_eq; [| |exact Hk].
       + repeat split.
-      + unfold store_eq, set_blob. cbn [ints sizes locals]. rewrite F1, F3, F4, E1, E3, E4. repeat split.
+      + apply store_eq_refl.
   Qed.
 
   (* ---- one-sided changes of the writer that no agreed token can see ---- *)
@@ -886,43 +978,46 @@ Section Rt.
   Definition w_frame (ni ns : list name) (ls : list lvar) (sw sw2 : state) : Prop :=
     (forall y, ~ In y ls -> get_local sw2 y = get_local sw y) /\
     (forall g i, ~ In g ni -> get_int sw2 (enc_key g i) = get_int sw (enc_key g i)) /\
-    (forall g i, ~ In g ns -> get_size sw2 (enc_key g i) = get_size sw (enc_key g i)).
+    (forall g i, ~ In g ns -> get_size sw2 (enc_key g i) = get_size sw (enc_key g i)) /\
+    blobs sw2 = blobs sw.
 
   Lemma w_frame_refl ni ns ls sw : w_frame ni ns ls sw sw.
   Proof. repeat split. Qed.
 
   Lemma w_frame_trans ni ns ls a b c : w_frame ni ns ls a b -> w_frame ni ns ls b c -> w_frame ni ns ls a c.
   Proof.
-    intros (L1 & I1 & S1) (L2 & I2 & S2). repeat split.
+    intros (L1 & I1 & S1 & B1) (L2 & I2 & S2 & B2). repeat split.
     - intros y H. rewrite L2, L1; auto.
     - intros g i H. rewrite I2, I1; auto.
     - intros g i H. rewrite S2, S1; auto.
+    - congruence.
   Qed.
 
   Lemma w_frame_set_int ni ns ls sw f i z : In f ni -> w_frame ni ns ls sw (set_int sw (enc_key f i) z).
   Proof.
-    intros Hf. repeat split. intros g j Hg. rewrite get_set_int.
+    intros Hf. repeat split; try reflexivity. intros g j Hg. rewrite get_set_int.
     rewrite skey_eqb_names; [reflexivity|]. intros ->. contradiction.
   Qed.
 
   Lemma w_frame_set_size ni ns ls sw f i n : In f ns -> w_frame ni ns ls sw (set_size sw (enc_key f i) n).
   Proof.
-    intros Hf. repeat split. intros g j Hg. rewrite get_set_size.
+    intros Hf. repeat split; try reflexivity. intros g j Hg. rewrite get_set_size.
     rewrite skey_eqb_names; [reflexivity|]. intros ->. contradiction.
   Qed.
 
   Lemma w_frame_set_local ni ns ls sw x z : In x ls -> w_frame ni ns ls sw (set_local sw x z).
   Proof.
-    intros Hx. repeat split. intros y Hy. rewrite get_set_local.
+    intros Hx. repeat split; try reflexivity. intros y Hy. rewrite get_set_local.
     destruct (N.eqb_spec y x); [subst; contradiction|reflexivity].
   Qed.
 
   Lemma w_frame_store_eq ni ns ls sw a b : store_eq a b -> w_frame ni ns ls sw a -> w_frame ni ns ls sw b.
   Proof.
-    intros (E1 & E2 & E3) (L & I & S). repeat split.
+    intros (E1 & E2 & E3 & E4) (L & I & S & B). repeat split.
     - intros y H. unfold get_local. rewrite <- E3. apply L. exact H.
     - intros g i H. unfold get_int. rewrite <- E1. apply I. exact H.
     - intros g i H. unfold get_size. rewrite <- E2. apply S. exact H.
+    - congruence.
   Qed.
 
   Lemma eval_idx_frame ls sw sw2 idx :
@@ -941,7 +1036,7 @@ Section Rt.
     (forall y, In y ls -> xfree y B) ->
     w_frame ni ns ls sw sw2 -> agree B sw sr -> agree B sw2 sr.
   Proof.
-    intros Hni Hns Hls (L & I & S) [Hl Hi Hz].
+    intros Hni Hns Hls (L & I & S & Bq) [Hl Hi Hz Hb].
     constructor.
     - intros x Hx. rewrite L; [apply Hl; exact Hx|].
       intros Hin. exact (Hls x Hin _ Hx eq_refl).
@@ -955,6 +1050,10 @@ Section Rt.
       { unfold key. f_equal. apply (eval_idx_frame ls); [exact L|]. intros y Hy. exact (Hls y Hy _ Hg). }
       rewrite Hk. unfold key. rewrite S; [apply Hz; auto|].
       intros Hin. exact (Hns g Hin g i Hg eq_refl).
+    - intros g i Hg Hidx.
+      assert (Hk : key sw2 g i = key sw g i).
+      { unfold key. f_equal. apply (eval_idx_frame ls); [exact L|]. intros y Hy. exact (Hls y Hy _ Hg). }
+      rewrite Hk. unfold get_blob. rewrite Bq. apply Hb; auto.
   Qed.
 
   (* ---- NiVector::SyncSize ---- *)
@@ -983,7 +1082,7 @@ Section Rt.
       assert (Ag2 : agree (akill_size f A) (emit (set_size sw k n1) lb) u).
       { eapply agree_store_eq with (sw := set_size sw k n1) (sr := sr).
         - repeat split.
-        - unfold store_eq. rewrite E1, E3, E4. repeat split.
+        - unfold store_eq. rewrite E1, E2, E3, E4. repeat split.
         - eapply (agree_w_frame _ [] [f] []); [intros ? []| |intros ? []| |exact Ag1].
           + intros g [<-|[]]. apply akill_size_no.
           + apply w_frame_set_size. left. reflexivity. }
@@ -995,10 +1094,11 @@ Section Rt.
   Lemma w_frame_weaken ni ns ls ni' ns' ls' a b :
     incl ni ni' -> incl ns ns' -> incl ls ls' -> w_frame ni ns ls a b -> w_frame ni' ns' ls' a b.
   Proof.
-    intros H1 H2 H3 (L & I & S). repeat split.
+    intros H1 H2 H3 (L & I & S & B). repeat split.
     - intros y Hy. apply L. intros Hin. apply Hy. apply H3. exact Hin.
     - intros g i Hg. apply I. intros Hin. apply Hg. apply H1. exact Hin.
     - intros g i Hg. apply S. intros Hin. apply Hg. apply H2. exact Hin.
+    - exact B.
   Qed.
 
   Lemma compact_frame fidx i : forall fuel st src dst n,
@@ -1103,12 +1203,12 @@ Section Rt.
       { eapply idx_agreed_mono; [|exact HidxB]. intros a Ha. apply in_aadd_old. exact Ha. }
       pose proof (agree_set_size_both _ _ _ frefs idx (Z.to_N z) Ag1' HidxB1) as Ag2.
       assert (Hk2w : key (sync_int Wr st0 ksz u32 4) frefs idx = enc_key frefs i).
-      { unfold key. f_equal. destruct Sw as (_ & _ & E).
+      { unfold key. f_equal. destruct Sw as (_ & _ & E & _).
         transitivity (eval_idx st0 idx).
         - unfold eval_idx. apply map_ext. intros [n|y]; cbn [eval_i]; [reflexivity|]. unfold get_local. rewrite E. reflexivity.
         - apply (eval_idx_frame [0]); [apply clean_frame|]. intros y [<-|[]]. exact Hm0. }
       assert (Hk2r : key (sync_int Rd sr ksz u32 4) frefs idx = enc_key frefs i).
-      { unfold key. f_equal. destruct S1 as (_ & _ & E). rewrite <- Hi2.
+      { unfold key. f_equal. destruct S1 as (_ & _ & E & _). rewrite <- Hi2.
         unfold eval_idx. apply map_ext. intros [n|y]; cbn [eval_i]; [reflexivity|]. unfold get_local. rewrite E. reflexivity. }
       rewrite Hk2w, Hk2r in Ag2. exact Ag2.
   Qed.
